@@ -197,7 +197,8 @@ def rule_net_blocks_drive_their_readers(repo):
     return rule_netblock(repo)
 
 
-RULES = [rule_agree] + list(_c02.RULES) + list(_c07.RULES) + [rule_two_writers_rejected, rule_net_blocks_drive_their_readers]
+# (C02's rule_replace_keeps_edges is R-C15-saved, which C07's rule_replace_marks_registers already runs here)
+RULES = [rule_agree] + [_r for _r in _c02.RULES if _r is not _c02.rule_replace_keeps_edges] + list(_c07.RULES) + [rule_two_writers_rejected, rule_net_blocks_drive_their_readers]
 
 
 def _m(name, file, old, new, rule=None, count=1):
